@@ -30,6 +30,7 @@ type T struct {
 	fatal    func(string)
 	occ      map[string]int
 	mu       sync.Mutex // free-running threads share the draw source
+	File     string     // the draw file of this native run (harnesses that re-execute themselves in a child process)
 }
 
 // RuntimeError is the dynamic type of run-time panics raised by the symbolic
@@ -237,7 +238,7 @@ func RunNative(t TB, name string, entry func(*T)) {
 		var v *T
 		res := Result{}
 		for a := 0; a < attempts; a++ {
-			v = &T{draws: in.Draws}
+			v = &T{draws: in.Draws, File: f}
 			res = Result{}
 			func() {
 				defer func() {
